@@ -143,10 +143,12 @@ def device_field_names(cls) -> list[str]:
 def device_value(dev):
     kvs = [(CLASS_KEY, vstr(type(dev).__name__))]
     for name in device_field_names(type(dev)):
+        # raw dataclass fields, zipped here (not through the `channels` / `dmm_channels` properties of the
+        # code under test); DMM ids follow the documented rule "dmm_[index in dmm_objects]"
         if name == "channels":
-            v = vlist([channel_value(ch, cid) for cid, ch in dev.channels.items()])
+            v = vlist([channel_value(ch, cid) for cid, ch in zip(dev.channel_ids, dev.channel_objects)])
         elif name == "dmm_objects":
-            v = vlist([channel_value(ch, cid) for cid, ch in dev.dmm_channels.items()])
+            v = vlist([channel_value(ch, f"dmm_{i}") for i, ch in enumerate(dev.dmm_objects)])
         else:
             v = to_value(getattr(dev, name))
         kvs.append((name, v))
